@@ -15,6 +15,7 @@ REAL = "real code from the /repo working tree"
 PROPERTIES = {}
 NOT_APPLICABLE = {}
 ENGINE_KINDS = {
+    "topo": "generated and shipped .itp files on the simulated disk: read_topology / MoleculeTop / are_connected against the generator's ground truth (stack budget as resource knob); read-write-read-write-read histories compared by an independent line classifier",
     "grofile": "GroFile writer sessions on a simulated disk (file seam: operation log, crash images, torn writes, byte truncation) read back by the real reader and an independent parser",
     "pbc": "seeded trajectories of two residues under a box; closed-form oracle (degenerate simulation: no schedule, no fault)",
 }
@@ -47,7 +48,7 @@ _reg("C19", engine="pbc", level="exploration",
 
 
 _reg("C13", engine="grofile", level="exploration",
-     runs={"quick": 6000, "thorough": 400000}, block=100,
+     runs={"quick": 40000, "thorough": 1600000}, block=250,
      technique="seeded writer sessions (configuration order, formats, counts scheduled by the PRNG) on a simulated disk; file-seam image checked by the real reader and an independent fixed-width parser",
      level_text=("Sampled writer sessions: the order in which title / box / position format / atom count are configured, "
                  "writeline vs writelines, with-block vs close, declared vs back-filled count, 1..300 records with numbers around "
@@ -63,7 +64,7 @@ _reg("C13", engine="grofile", level="exploration",
      probes=["custom_format", "velocities", "declared_count", "number_ge_99999", "triclinic_box"])
 
 _reg("C14", engine="grofile", level="fault_enumeration",
-     runs={"quick": 640, "thorough": 40000}, block=10,
+     runs={"quick": 3200, "thorough": 100000}, block=20,
      technique="crash-point enumeration on the file seam's operation log (stop before every write/seek/close, torn writes, byte truncation), each image opened by the real reader",
      level_text=("Per sampled writer session EVERY crash point at operation granularity is enumerated (before each record, "
                  "before close, between the seek / count back-fill / seek / box / newline steps of close), every torn prefix "
@@ -80,3 +81,38 @@ _reg("C14", engine="grofile", level="fault_enumeration",
      components={"GroFile (writer and reader)": REAL, "disk": "tmpfs file; crash images rebuilt from the file seam's operation log"},
      schedule_dimension="crash point (operation index, torn prefix length, truncation offset)",
      probes=["torn_in_close", "images", "shipped_file"])
+
+
+_reg("C15", engine="topo", level="exploration",
+     runs={"quick": 8000, "thorough": 600000}, block=50,
+     technique="seeded generation of topology files with ground truth carried in the trace; loaded through the real parsers behind the file seam; recursion limit as an injected resource budget",
+     level_text=("Sampled .itp files (1..3000 atoms; trees, forests, cyclic graphs; gapped numbering; bonds spread over "
+                 "bonds/constraints/pairs in any order, occasionally the same section twice; comments, blank and preprocessor "
+                 "lines; ragged spacing; a fixed share of 1000..3000-atom chains).  read_topology, MoleculeTop, are_connected "
+                 "(under the default and a reduced stack budget) and MoleculeTop.copy are compared with the ground truth the "
+                 "generator recorded."),
+     level_note=("Trusted: the harness' own model of what the generated lines mean (truth_from_ops) and union-find.  Preprocessor "
+                 "lines start in column 0; atom numbers are unique; no section header carries a trailing comment."),
+     rule=("one run = one generated topology; non-trivial = it loaded; distinct = distinct (load outcome, connectivity answer, "
+           "copy outcome) x file shape signatures"),
+     components={"ItpFile/ItpSection/ItpLine*": REAL, "read_topology": REAL, "MoleculeTop/AtomTop": REAL, "are_connected": REAL,
+                 "disk": "tmpfs file behind the file seam"},
+     schedule_dimension="none for the parse itself; resource knob: interpreter recursion budget",
+     probes=["chain_ge_1000", "cyclic_graph", "disconnected_graph", "multi_residue"])
+
+_reg("C16", engine="topo", level="exploration",
+     runs={"quick": 8000, "thorough": 600000}, block=50,
+     technique="five-step file history (read A, write B, read B, write C, read C) through the file seam; A/B/C compared by an independent line classifier and by read_topology",
+     level_text=("Sampled file histories over all 16 shipped topologies and generated files with sections in any order, repeated "
+                 "section names, content lines with no / empty / multiple trailing comments, comment-only lines including "
+                 "commented-out preprocessor lines, blank and preprocessor lines and header text.  What the library wrote is "
+                 "taken from the file seam's operation log and compared with its input section by section (content tokens, "
+                 "comment and preprocessor lines and their relative positions), then B against C for stability."),
+     level_note=("Trusted: the independent classifier (30 lines).  Not compared: blank lines, whitespace inside comments, an empty "
+                 "comment (';' alone).  Section headers carry no trailing comment; no section is called 'header'."),
+     rule=("one run = one five-step history; non-trivial = all five steps ran; distinct = distinct sets of line kinds present x "
+           "number of sections"),
+     components={"ItpFile.write / ItpSection.__str__ / ItpLine.line": REAL, "read_topology": REAL,
+                 "disk": "tmpfs files behind the file seam (written content taken from the seam's operation log)"},
+     schedule_dimension="file history read/write/read/write/read",
+     probes=["repeated_section_name", "empty_trailing_comment", "commented_preprocessor", "multiple_trailing_comments", "shipped_file"])
